@@ -212,7 +212,14 @@ theorem cross_device_counter :
   decide
 
 /-! ### the in-place record writers of `dbi.FlatfileMapping` (not AtomicFile; outside the flushes the
-property enumerates, recorded as finding C17-inplace-record-writers) -/
+property enumerates, but the persistence path of every plugin database using the flat mapping) -/
+
+/-- **flat_set_atomic.**  `FlatfileMapping.set` now rewrites the database through an AtomicFile (copy
+every other record, then the new line): it is an atomic write like any flush, so `crash_atomic`
+applies to it verbatim. -/
+theorem flat_set_atomic (c : Cfg) (h : CfgOk c) (ws : List (Bytes × Nat)) (fs : FS) (k : Nat) :
+    Good (fs.disk c.filename) (newContent ws) ((crashAt fs (flushOps c ws fs) k).disk c.filename) :=
+  crash_atomic c h ws fs k
 
 namespace Flat
 
@@ -220,33 +227,50 @@ theorem writeAt_end (disk d : Bytes) : writeAt disk disk.length d = disk ++ d :=
   unfold writeAt
   simp
 
+theorem writeAt_zero_drop (disk hdr : Bytes) (h : hdr.length ≤ disk.length) :
+    (writeAt disk 0 hdr).drop hdr.length = disk.drop hdr.length := by
+  unfold writeAt
+  simp
+
 /-- **flat_add_states.**  `FlatfileMapping.add` killed after any number of calls leaves the old file,
-the new file, or a third state: the record appended while the id counter at the top still has its
-old value. -/
+the old file with the id counter already advanced, or the new file. -/
 theorem flat_add_states (disk line hdr : Bytes) (k : Nat) :
-    crashAt disk (addOps line hdr) k = disk ∨ crashAt disk (addOps line hdr) k = disk ++ line ∨
-    crashAt disk (addOps line hdr) k = writeAt (disk ++ line) 0 hdr := by
+    crashAt disk (addOps line hdr) k = disk ∨ crashAt disk (addOps line hdr) k = writeAt disk 0 hdr ∨
+    crashAt disk (addOps line hdr) k = writeAt disk 0 hdr ++ line := by
   unfold crashAt addOps
-  by_cases hl : line = []
-  · subst hl
-    by_cases hh : hdr = []
-    · subst hh
+  by_cases hh : hdr = []
+  · subst hh
+    by_cases hl : line = []
+    · subst hl
       match k with
       | 0 | 1 | 2 | 3 | 4 => left; simp [run, step, flushH, openRW]
       | n + 5 => left; simp [run, step, flushH, openRW]
     · match k with
-      | 0 | 1 | 2 | 3 | 4 => left; simp [run, step, flushH, openRW, hh]
-      | n + 5 => right; right; simp [run, step, flushH, openRW, hh]
-  · by_cases hh : hdr = []
-    · subst hh
+      | 0 | 1 | 2 | 3 | 4 => left; simp [run, step, flushH, openRW, hl]
+      | n + 5 => right; right; simp [run, step, flushH, openRW, hl, writeAt_end, writeAt]
+  · by_cases hl : line = []
+    · subst hl
       match k with
-      | 0 | 1 | 2 => left; simp [run, step, flushH, openRW, hl]
-      | 3 | 4 => right; left; simp [run, step, flushH, openRW, hl, writeAt_end]
-      | n + 5 => right; left; simp [run, step, flushH, openRW, hl, writeAt_end]
+      | 0 | 1 | 2 => left; simp [run, step, flushH, openRW, hh]
+      | 3 | 4 => right; left; simp [run, step, flushH, openRW, hh]
+      | n + 5 => right; left; simp [run, step, flushH, openRW, hh]
     · match k with
-      | 0 | 1 | 2 => left; simp [run, step, flushH, openRW, hl]
-      | 3 | 4 => right; left; simp [run, step, flushH, openRW, hl, writeAt_end]
-      | n + 5 => right; right; simp [run, step, flushH, openRW, hl, hh, writeAt_end]
+      | 0 | 1 | 2 => left; simp [run, step, flushH, openRW, hh]
+      | 3 | 4 => right; left; simp [run, step, flushH, openRW, hh]
+      | n + 5 => right; right; simp [run, step, flushH, openRW, hh, hl, writeAt_end]
+
+/-- **flat_add_atomic.**  What `add` leaves behind at any crash index holds, below the counter
+line, exactly the old records or exactly the new records: the in-between state only has the
+counter advanced (an id is skipped, none is ever handed out twice). -/
+theorem flat_add_atomic (disk line hdr : Bytes) (hw : hdr.length ≤ disk.length) (k : Nat) :
+    (crashAt disk (addOps line hdr) k).drop hdr.length = disk.drop hdr.length ∨
+    (crashAt disk (addOps line hdr) k).drop hdr.length = disk.drop hdr.length ++ line := by
+  have hlen : (writeAt disk 0 hdr).length = disk.length := by unfold writeAt; simp; omega
+  rcases flat_add_states disk line hdr k with h | h | h
+  · left; rw [h]
+  · left; rw [h, writeAt_zero_drop disk hdr hw]
+  · right
+    rw [h, List.drop_append_of_le_length (by rw [hlen]; exact hw), writeAt_zero_drop disk hdr hw]
 
 /-- **flat_remove_atomic.**  `remove` is one in-place write: old or new, nothing in between. -/
 theorem flat_remove_atomic (disk blank : Bytes) (off k : Nat) :
@@ -262,23 +286,27 @@ theorem flat_remove_atomic (disk blank : Bytes) (off k : Nat) :
     | 4 => right; simp [run, step, flushH, openRW, hb]
     | n + 5 => right; simp [run, step, flushH, openRW, hb]
 
-/-- **flat_add_counter** (finding C17-inplace-record-writers).  The third state is real and is
-neither version: "0004\n…" + the record 0004 — a file that loads, whose counter says the next id is
-4 while a record 4 already exists (the next `add` creates a second record 4).  `set` has the
-mirror-image window (old record blanked, new one not yet appended: the record is gone). -/
+/-- **flat_add_counter** (the repaired defect).  Before the repair `add` wrote the record first:
+killed before the counter was rewritten, the file was "04\n…" + record 04 — it loads, says the next
+id is 4 while record 4 exists, and the next `add` created a second record 4. -/
 theorem flat_add_counter :
     let old : Bytes := [48, 52, 10, 48, 51, 58, 97, 10]          -- "04\n03:a\n"
     let line : Bytes := [48, 52, 58, 98, 10]                      -- "04:b\n"
     let hdr : Bytes := [48, 53]                                   -- "05"
-    crashAt old (addOps line hdr) 3 ≠ old ∧
-    crashAt old (addOps line hdr) 3 ≠ crashAt old (addOps line hdr) 5 ∧
-    crashAt old (addOps line hdr) 3 = old ++ line := by decide
+    crashAt old (addOpsOld line hdr) 3 = old ++ line ∧
+    (crashAt old (addOpsOld line hdr) 3).drop 2 ≠ old.drop 2 ∧
+    (crashAt old (addOpsOld line hdr) 3).take 2 = old.take 2 := by decide
 
+/-- **flat_set_counter** (the repaired defect).  Before the repair `set` blanked the old record
+before appending the new one: killed in between, the record was gone. -/
 theorem flat_set_counter :
     let old : Bytes := [48, 52, 10, 48, 51, 58, 97, 10]
-    crashAt old (setOps 3 [45, 45] [48, 51, 58, 65, 10]) 5 = [48, 52, 10, 45, 45, 58, 97, 10] ∧
-    crashAt old (setOps 3 [45, 45] [48, 51, 58, 65, 10]) 7 = [48, 52, 10, 45, 45, 58, 97, 10, 48, 51, 58, 65, 10] := by
+    crashAt old (setOpsOld 3 [45, 45] [48, 51, 58, 65, 10]) 5 = [48, 52, 10, 45, 45, 58, 97, 10] ∧
+    crashAt old (setOpsOld 3 [45, 45] [48, 51, 58, 65, 10]) 7 = [48, 52, 10, 45, 45, 58, 97, 10, 48, 51, 58, 65, 10] := by
   decide
+
+example : (crashAt [48, 52, 10, 48, 51, 58, 97, 10] (addOps [48, 52, 58, 98, 10] [48, 53]) 3) =
+    [48, 53, 10, 48, 51, 58, 97, 10] := by decide
 
 end Flat
 
